@@ -45,21 +45,28 @@ def unhx(s):
 # --------------------------------------------------------------------------- generators
 def packed_words(n):
     """all sequences of length n whose set of values is {0..k-1} for some k: one representative
-    of every order pattern (every permutation and every multiset arrangement)"""
-    out = []
-
-    def rec(prefix):
-        if len(prefix) == n:
-            k = max(prefix) + 1 if prefix else 0
-            if len(set(prefix)) == k:
-                out.append(tuple(prefix))
-            return
-        for v in range(n):
-            rec(prefix + [v])
+    of every order pattern (every permutation and every arrangement of every multiset);
+    their number is the ordered Bell number (1, 1, 3, 13, 75, 541, 4683, 47293, 545835)"""
     if n == 0:
         return [()]
-    # faster: generate by surjections count; n <= 7 so n^n <= 823543 is acceptable once
-    rec([])
+    out = []
+    for k in range(1, n + 1):
+        word = [0] * n
+        used = [0] * k
+
+        def rec(pos, missing):
+            if pos == n:
+                if missing == 0:
+                    out.append(tuple(word))
+                return
+            if n - pos < missing:
+                return
+            for v in range(k):
+                word[pos] = v
+                used[v] += 1
+                rec(pos + 1, missing - (1 if used[v] == 1 else 0))
+                used[v] -= 1
+        rec(0, k)
     return out
 
 
@@ -405,12 +412,12 @@ def run_grid_oracle(ctx, exe, quick):
     if first_last is not None:
         ctx.violation("uniformgrid-find-last-bin",
                       "UniformGrid::find(v) returns size-1 (bin+1 == size) for front <= v < back: "
-                      "from_bounds(%r, %r, %d).find(%r) = %d; %d of %d uniform grids tried have such a v "
-                      "within 8 ulp below back" % (first_last["front"], first_last["back"],
-                                                   first_last["size"], first_last["value"],
-                                                   first_last["returned_bin"], stats["last_bin_grids"],
-                                                   sum(1 for l in lines if l.startswith("ugrid"))),
+                      "from_bounds(%r, %r, %d).find(%r) = %d (upper knot read one past the table by "
+                      "every calculator; DESIGN.md §8 row d)"
+                      % (first_last["front"], first_last["back"], first_last["size"],
+                         first_last["value"], first_last["returned_bin"]),
                       first_last)
+    stats["uniform_grids_tried"] = sum(1 for l in lines if l.startswith("ugrid"))
     stats["samples"] = [lines[0], out[0], lines[len(fixed) + 3], out[len(fixed) + 3]]
     return stats
 
@@ -421,18 +428,18 @@ def build_scripts(ctx, quick):
     lines = []
     counts = {}
     # 1. every order pattern up to length L exhaustively, sampled above
-    full_upto = 5 if quick else 7
+    full_upto = 6 if quick else 7
     n_patterns = 0
     for n in range(0, 8):
         ws = packed(n) if n <= (6 if quick else 7) else None
         if n <= full_upto:
             sel = ws
         elif ws is not None:
-            sel = [ws[rng.below(len(ws))] for _ in range(700)]
+            sel = [ws[rng.below(len(ws))] for _ in range(700)]   # (unused: kept for tiers < full)
         else:
             # quick tier, n = 7: sample by random surjection without enumerating 7^7
             sel = []
-            while len(sel) < 500:
+            while len(sel) < 2500:
                 k = rng.range(1, n)
                 w = [rng.below(k) for _ in range(n)]
                 if len(set(w)) == k:
@@ -442,6 +449,12 @@ def build_scripts(ctx, quick):
             lines += ops_for_word(w, rng, full=(n <= 4) or (not quick and n <= 6))
             if tuple(sorted(w)) == w:
                 lines += bound_ops(w, rng, full=not quick)
+    if not quick:
+        # every order pattern of length 8 (545835): the two sorts only
+        for w in packed(8):
+            n_patterns += 1
+            lines.append("sort less : " + sl(w))
+            lines.append("sort key : 0 1 2 3 4 5 6 7 : " + sl(w))
     counts["order_patterns"] = n_patterns
     # 2. partition / predicates: every boolean pattern up to length 10 (12 thorough)
     for n in range(0, 11 if quick else 13):
@@ -620,8 +633,10 @@ def run(ctx):
         "op_mix": dict(sorted(tags.items())),
         "order_patterns_enumerated": counts["order_patterns"],
         "exhaustive": "every order pattern (packed word: all permutations and all arrangements of "
-                      "all multisets up to order isomorphism) of length <= %d; every boolean pattern "
-                      "of length <= %d for partition" % (5 if quick else 7, 10 if quick else 12),
+                      "all multisets up to order isomorphism) of length <= %d%s; every boolean pattern "
+                      "of length <= %d for partition" % (6 if quick else 7, "" if quick else
+                                                         " (all ops) and of length 8 (sort)",
+                                                         10 if quick else 12),
         "corpus_ops": len(corpus), "oracle_mismatches": n_oracle,
         "diverging_ops": len(diverged), "grid_oracle": gstats, "sanitizer": san,
         "samples": [gen[0], gen[1], gen[len(gen) // 3], gen[len(gen) // 2], oh[len(corpus)] if oh else ""],
